@@ -62,3 +62,14 @@ MUTANTS["C06"] = [
     ("prio-ignored", "annet/annlib/patching.py", '                    rule["attrs"]["prio"],\n', '                    0,\n'),
     ("interface-default-off", "annet/annlib/rbparser/acl.py", '[raw_rule.startswith("interface")]', '[False]'),
 ]
+
+MUTANTS["C02"] = [
+    ("cant_delete-any-in-diff", "annet/annlib/patching.py", '            if op == Op.REMOVED and all(match["attrs"]["cant_delete"]):', '            if op == Op.REMOVED and all(match["attrs"]["cant_delete"]) and len(match["attrs"]["cant_delete"]) < 2:'),
+    ("skip-apply_acl_diff", "annet/annlib/patching.py", "        if acl_rules is not None:\n            diff = apply_acl_diff(diff, acl_rules)", "        if acl_rules is not None and False:\n            diff = apply_acl_diff(diff, acl_rules)"),
+    ("no-removed-to-affected", "annet/annlib/patching.py", "                op = Op.AFFECTED\n            children = apply_acl_diff(children, children_rules)", "                pass\n            children = apply_acl_diff(children, children_rules)"),
+    ("old-not-filtered", "annet/api/__init__.py", "        old = patching.apply_acl(old, acl_rules)\n", "        old = old\n"),
+    ("interface-default-off", "annet/annlib/rbparser/acl.py", '[raw_rule.startswith("interface")]', '[False]'),
+    # (taking ACL children rules from the first match only narrows the filter: a C06 break, not a C02 one)
+    ("empty-acl-means-no-acl", "annet/gen.py", "        if not ctx.args.no_acl:\n            acl_rules = generators.compile_acl_text(res.acl_text(), device.hw.vendor)", "        if not ctx.args.no_acl and res.acl_text():\n            acl_rules = generators.compile_acl_text(res.acl_text(), device.hw.vendor)"),
+    # (not filtering old in _old_new_per_device is an equivalent mutant: _diff_and_patch filters old again)
+]
